@@ -59,6 +59,17 @@ Theorem c16_plan_reads_grid_first : forall r g,
   is_make (r_cmd r) = false -> r_cmd r <> command_makeexoquad -> exists tl, plan r g = ReadGrid (gridfile r) :: tl.
 Proof. exact plan_reads_first. Qed.
 
+(* the dispatch switch of executeCommand (regenerated from the source) selects, for every command, the handler whose
+   library call the documented plan of that command contains; and no command is missing from the switch *)
+Theorem c16_dispatch_matches_plan : forall c h,
+  In (c, h) dispatch -> forall r g, r_cmd r = c -> existsb (handler_matches h) (body r g) = true.
+Proof. exact dispatch_matches_plan. Qed.
+
+Theorem c16_dispatch_covers_commands :
+  forallb (fun c => is_make c || command_beq c command_makeexoquad || handled_outside_switch c ||
+                    existsb (fun ch => command_beq c (fst ch)) dispatch) all_commands = true.
+Proof. exact dispatch_covers_commands. Qed.
+
 (* const commands: no mutating library call and no write; every other command ends with the write of the grid file *)
 Theorem c16_const_commands_do_not_write : forall r g,
   In (r_cmd r) const_commands -> ~ In (r_cmd r) const_list_deviations ->
@@ -129,6 +140,8 @@ Print Assumptions c16_rule_strings_classified.
 Print Assumptions c16_sane_enforces_required.
 Print Assumptions c16_plan_total.
 Print Assumptions c16_plan_reads_grid_first.
+Print Assumptions c16_dispatch_matches_plan.
+Print Assumptions c16_dispatch_covers_commands.
 Print Assumptions c16_const_commands_do_not_write.
 Print Assumptions c16_documented_queries_do_not_write.
 Print Assumptions c16_other_commands_end_with_write.
